@@ -49,7 +49,7 @@ def check(case: Dict[str, Any]) -> CaseInfo:
     p = case["params"]
     with scratch_dir() as d:
         files = write_case(case, d)
-        ta = load_analysis(files, d, mp=case.get("mp", False))
+        ta = load_analysis(files, d, mp=case.get("mp", False), prelude=case.get("prelude"))
         res = hta_call("get_cuda_kernel_launch_stats", lambda: ta.get_cuda_kernel_launch_stats(
             ranks=p["ranks"], include_memory_events=p["memory"], visualize=False))
     want_ranks = p["ranks"] if p["ranks"] else [0]
